@@ -714,6 +714,13 @@ class Rectangle(Shape):
         min_y = min(self._lower_coord.imag, self._upper_coord.imag)
         max_y = max(self._lower_coord.imag, self._upper_coord.imag)
 
+        # The limits above do not account for the rotation. Instead of
+        # rotating the rectangle we rotate the point (around the rectangle
+        # center) in the opposite direction.
+        if self.rotation != 0:
+            point = self.pos + Shape.calc_rotated_pos(point - self.pos,
+                                                      -self.rotation)
+
         point_x = point.real
         point_y = point.imag
         if point_x < min_x:
